@@ -6,14 +6,16 @@ CONSTANTS
   MaxAtt = 2
   MaxCuts = 1
   MaxProxies = 2
+  MaxDrops = 1
   Dev_NoCleanup = FALSE
   Dev_RouterFirst = FALSE
   Dev_NoLease = FALSE
+  Dev_StaleKept = FALSE
   Dev_StagingUnchecked = FALSE
   Dev_IdReuse = FALSE
   Dev_LookupStaged = FALSE
   Dev_RemovedForStaged = FALSE
   Dev_EnableErrorIgnored = FALSE
-INVARIANTS TypeOK UniqueNames IdsIncreasing VisibleExactly EventsOnce LiveVisible VisibleReachable StagedOwned NoOrphan TerminatedInvisible
+INVARIANTS TypeOK UniqueNames IdsIncreasing VisibleExactly EventsOnce LiveVisible VisibleReachable StagedOwned NoOrphan TerminatedInvisible NoStalePool StaleOnlyDown
 VIEW MCView
 CHECK_DEADLOCK FALSE
